@@ -92,11 +92,24 @@ def prepare_harness_module():
     return mod
 
 
+_OWNED = []
+
+
+def _own(path):
+    """remember a file of this process and remove it when the process ends"""
+    if not _OWNED:
+        import atexit
+        atexit.register(lambda: [os.path.exists(f) and os.remove(f) for f in _OWNED])
+    _OWNED.append(path)
+    return path
+
+
 def go_build(cmd_name, tags="verif", race=False, overlay=None, out_name=None):
     """build /verif/harness/cmd/<cmd_name> against the working tree of REPO.
     overlay: {path in the tree under test: replacement file} applied with go build -overlay (nothing is written to it)."""
     os.makedirs(BIN, exist_ok=True)
-    out = os.path.join(BIN, (out_name or cmd_name) + ("_race" if race else ""))
+    # one binary per check process (removed at exit): concurrent checks, possibly against different trees, share nothing
+    out = _own(os.path.join(BIN, "%s%s_%d" % (out_name or cmd_name, "_race" if race else "", os.getpid())))
     with Lock("gobuild"):
         mod = prepare_harness_module()
         if os.path.exists(out):
@@ -131,7 +144,7 @@ def go_test_build(pkg_dir, test_files, name, race=False, extra_overlay=None, tag
     ov = os.path.join(WORK, "overlay_%s_%d.json" % (name, os.getpid()))
     with open(ov, "w") as f:
         json.dump({"Replace": repl}, f)
-    out = os.path.join(BIN, name + ".test")
+    out = _own(os.path.join(BIN, "%s_%d.test" % (name, os.getpid())))
     cmd = ["go", "test", "-c", "-tags", tags, "-vet=off", "-overlay", ov, "-o", out]
     if race:
         cmd.append("-race")
